@@ -156,7 +156,8 @@ impl<'a> SnapshotBuilder<'a> {
 //@ fn SnapshotBuilder::process_aspa
 //@ spec
     ensures
-        // C09: ASPAs of the same customer are merged into the union of their providers
+        // C09 + C02: ASPAs of the same customer are merged into the union of their providers
+        // (no provider of a valid ASPA object is lost)
         !old(self).aspas@.contains_key(aspa.customer) ==>
             final(self).aspas@ == old(self).aspas@.insert(aspa.customer, (aspa.providers, info_published(aspa.info))),
         old(self).aspas@.contains_key(aspa.customer) ==> {
@@ -164,7 +165,7 @@ impl<'a> SnapshotBuilder<'a> {
             &&& forall|k: Asn| k != aspa.customer && old(self).aspas@.contains_key(k)
                     ==> final(self).aspas@[k] == old(self).aspas@[k]
             &&& final(self).aspas@[aspa.customer].0.asns()
-                    == old(self).aspas@[aspa.customer].0.asns().union(aspa.providers.asns())
+                    =~= old(self).aspas@[aspa.customer].0.asns().union(aspa.providers.asns())
             &&& final(self).aspas@[aspa.customer].1.srcs()
                     == old(self).aspas@[aspa.customer].1.srcs().insert(Src::Published(aspa.info))
         },
